@@ -12,11 +12,14 @@ theorem C03_totals_step (op : CellOp) (c c' : Cell) (hd : op.inDomain c)
     c'.totalsOK = true :=
   (cellOp_facts op c c' hd (good_of_bool hn ht) h).good.totalsOK
 
+/-- A host move keeps the derived totals of both cells. (`0 ≤ count` is not a hypothesis: a valid
+    class draw `hd` exists only for a non-negative count; the length of the target's
+    mortality-cohort list plays no role - in the C++ all cells share it.) -/
 theorem C03_totals_move (src dst : Cell) (count : Int) (d : ClassDraw) (dE dM : List Int)
-    (hs : src.nonNeg = true) (hts : src.totalsOK = true) (htd : dst.totalsOK = true) (hc : 0 ≤ count)
+    (hs : src.nonNeg = true) (hts : src.totalsOK = true) (htd : dst.totalsOK = true)
     (hd : validClassDrawB src count d = true)
     (hE : d.e > 0 → ValidDraw src.e d.e dE) (hM : d.i > 0 → ValidDraw src.mort d.i dM)
-    (hlenE : dst.e.length = src.e.length) (hlenM : dst.mort.length = src.mort.length) :
+    (hlenE : dst.e.length = src.e.length) :
     let r := moveHosts src dst count d dE dM
     r.1.totalsOK = true ∧ r.2.1.totalsOK = true :=
   have hg := good_of_bool hs hts
@@ -49,11 +52,16 @@ theorem C03_cohorts_full_fails : ¬ C03_cohorts_full := fun hfull =>
   absurd (hfull (.simpleTreat (1/2) .ratio) ⟨0, [], 2, 0, 0, [1, 1], 0, 2⟩ ⟨0, [], 1, 0, 0, [0, 0], 0, 1⟩
     half_in_unit (by decide) (by decide) (by decide) rfl f20_witness) (by decide)
 
-/-- Mortality can account for every infected host: from a consistent cell it never fails. -/
+/-- Mortality can account for every infected host: from a consistent cell it never fails.
+    `hl : 0 ≤ lag` is not used by the proof (the model reads a cohort index beyond the list as 0)
+    but is kept on purpose: with a negative lag `apply_mortality_at` indexes
+    `mortality_tracker_vector_` beyond its size (undefined behaviour), so "never fails" would be
+    a false claim about the code there. -/
 theorem C03_mortality_never_fails (c : Cell) (rate : Rat) (lag : Int)
     (hr : 0 ≤ rate ∧ rate ≤ 1) (hl : 0 ≤ lag)
     (hn : c.nonNeg = true) (ht : c.totalsOK = true) (hm : c.mortOK = true) :
     ∃ c', (CellOp.mortality rate lag).apply c = .ok c' :=
+  have _ := hl  -- domain of the C++ (see the doc comment), not needed by the model
   mortality_never_fails c rate lag hr (good_of_bool hn ht) ((mortOK_iff c).mp hm)
 
 theorem C03_cohorts_move (src dst : Cell) (count : Int) (d : ClassDraw) (dE dM : List Int)
